@@ -63,6 +63,21 @@ class Universe:
         ref, o = next(((r, o) for r, o in sorted(head.utxo.items()) if r not in used), sorted(head.utxo.items())[0])
         bad = R.RTx([(ref[0], ref[1], ("sig", KEYS[1].sign(b"nonsense")))], [(1, KEYS[2].pub)])
         self.bad_txs = [bad, R.RTx([], [(1, KEYS[0].pub)]), R.RTx([(R.NULL32, 0, ("se",))], [(5, KEYS[0].pub)])]
+        # properly signed spends whose amounts are out of range (zero / above the maximum / 64-bit maximum), no outputs, and
+        # a reference used twice
+        pubs = {kk.pub: kk for kk in KEYS}
+        ref, o = next(((r, o) for r, o in sorted(head.utxo.items()) if r not in used and o[1] in pubs), (None, None)) or (None, None)
+        if ref is None:
+            ref, o = next((r, o) for r, o in sorted(head.utxo.items()) if o[1] in pubs)
+        owner = pubs[o[1]]
+        for outs in ([(0, KEYS[2].pub), (o[0], KEYS[3].pub)], [(0, KEYS[2].pub)], [(R.MAX_SASHIMI + 1, KEYS[2].pub)],
+                     [((1 << 64) - 1, KEYS[2].pub)], [(R.MAX_SASHIMI, KEYS[2].pub), (1, KEYS[2].pub)], []):
+            t = R.RTx([(ref[0], ref[1], ("se",))], outs)
+            t.ins = [(ref[0], ref[1], ("sig", owner.sign(R.signing_message(t))))]
+            self.bad_txs.append(t.touch())
+        t = R.RTx([(ref[0], ref[1], ("se",)), (ref[0], ref[1], ("se",))], [(1, KEYS[2].pub)])
+        t.ins = [(ref[0], ref[1], ("sig", owner.sign(R.signing_message(t))))] * 2
+        self.bad_txs.append(t.touch())
         self.bad_blocks = []
         w = self.run.world
         head_label = next(l for l, blk in w.blocks.items() if blk.id() == self.cs.current_chain_hash)
@@ -73,6 +88,11 @@ class Universe:
         self.bad_blocks.append(blk)
         blk = w.build_block({"label": "orph", "parent": head_label, "miner": 1, "dt": 60, "txs": [], "hdr": {"prev": "unknown"}})
         self.bad_blocks.append(blk)
+        # structurally sound blocks that break a chain rule (reward too high, wrong height in the reward, time not increasing)
+        for i, extra in enumerate([{"reward": {"delta": 1}}, {"hdr": {"cb_height": 1}}, {"hdr": {"ts": "parent"}}]):
+            blk = w.build_block(dict({"label": "rule%d" % i, "parent": head_label, "miner": 1, "dt": w.safe_dt(head, 45), "txs": []}, **extra))
+            if blk is not None:
+                self.bad_blocks.append(blk)
         # a NEW valid block on the head (unknown to the node) and copies of it with a corrupted body under the genuine header
         self.next = w.build_block({"label": "next", "parent": head_label, "miner": 3, "dt": w.safe_dt(head, 45), "txs": []})
         self.next_corrupt = []
@@ -250,6 +270,9 @@ def one_case(u, rnd, res, M, record=None):
         res.nontrivial(env.digest(stream.hex()))
     res.count("attacker_disconnected" if not att.connected else "attacker_still_connected")
     res.count("streams_greeted" if greeted else "streams_before_greeting")
+    if net.stuck:
+        res.fail("escape", "lock-left-held:" + net.stuck[0][1], "after %s returned, %s of the node is still held: the next handler that needs it blocks for ever (event loop stopped)" % (
+            net.stuck[0][2], net.stuck[0][1]), case)
     if net.escaped:
         res.fail("escape", "exception-escaped:" + net.escaped[0][1].split("(")[0], "an exception left the node's event handling (in production it ends LocalPeer.run()): %s" % net.escaped[0][1], case)
     if after["cs"] != before["cs"]:
@@ -304,6 +327,8 @@ def one_case(u, rnd, res, M, record=None):
                 w.deliver()
         if node.cm.coinstate.current_chain_hash != u.next.id() and not res.failures:
             res.fail("bystander", "valid-block-from-bystander-refused-after-attack", "after the attacker's input a NEW valid block delivered by a well-behaved peer is not adopted", case)
+    if node.cm.coinstate is not cs_before or u.store_digest() != before["store"]:
+        u.new_store()                  # nothing of this case (e.g. the bystander's new block in the write buffer) leaks into the next
     return case
 
 
